@@ -12,9 +12,10 @@ EXTENDS RoundRobin, TraceBase
 VARIABLES l, scn, subject,
           pool, idx, cw,            \* implementation model
           ref, picks, cnt,          \* contract ghosts
-          bad, drift, nev
+          bad, drift, nev,
+          rfz                       \* a refused administration call happened since the last successful one
 
-vars == <<l, scn, subject, pool, idx, cw, ref, picks, cnt, bad, drift, nev>>
+vars == <<l, scn, subject, pool, idx, cw, ref, picks, cnt, bad, drift, nev, rfz>>
 
 Ev == Log[l]
 IsEvent(e) == l <= Len(Log) /\ Log[l].e = e /\ l' = l + 1
@@ -24,14 +25,14 @@ EmptyFn == <<>>
 Init == /\ l = 1 /\ scn = "" /\ subject = "rr"
         /\ pool = <<>> /\ idx = -1 /\ cw = 0
         /\ ref = EmptyFn /\ picks = <<>> /\ cnt = EmptyFn
-        /\ bad = <<>> /\ drift = <<>> /\ nev = 0
+        /\ bad = <<>> /\ drift = <<>> /\ nev = 0 /\ rfz = FALSE
 
 Reset ==
   /\ IsEvent("Reset")
   /\ scn' = Ev.scn /\ subject' = Ev.cfg.subject
   /\ pool' = <<>> /\ idx' = -1 /\ cw' = 0
   /\ ref' = EmptyFn /\ picks' = <<>> /\ cnt' = EmptyFn
-  /\ UNCHANGED <<bad, drift>> /\ nev' = nev + 1
+  /\ UNCHANGED <<bad, drift>> /\ nev' = nev + 1 /\ rfz' = FALSE
 
 (* observed members: sequence of [k, v, w] *)
 MemKeys(m) == {m[i].k : i \in 1..Len(m)}
@@ -68,7 +69,7 @@ Upsert ==
      /\ cnt' = ZeroCnt(r2)
   /\ picks' = <<>>
   /\ pool' = UpsertPool(pool, Ev.k, Ev.v, Ev.w) /\ idx' = -1 /\ cw' = 0
-  /\ UNCHANGED <<scn, subject, drift>> /\ nev' = nev + 1
+  /\ UNCHANGED <<scn, subject, drift>> /\ nev' = nev + 1 /\ rfz' = FALSE
 
 (* an update call whose option list ends with an invalid option: it must fail; whatever part of it was applied  *)
 (* is read back (the property does not say), and from then on the observed weights are the pool               *)
@@ -85,6 +86,7 @@ UpsertBad ==
      /\ picks' = IF r2 = ref THEN picks ELSE <<>>
   /\ pool' = [i \in 1..Len(Ev.members) |-> [k |-> Ev.members[i].k, v |-> Ev.members[i].v, w |-> Ev.members[i].w]]
   /\ UNCHANGED <<idx, cw>>          \* the failing path does not reset the iterator
+  /\ rfz' = (IF [k \in MemKeys(Ev.members) |-> MemW(Ev.members, k)] = ref /\ Ev.err THEN TRUE ELSE FALSE)
   /\ UNCHANGED <<scn, subject, drift>> /\ nev' = nev + 1
 
 (* an add that the rebalancer refused (it could not create a meter for the server): nothing may have changed *)
@@ -94,7 +96,7 @@ UpsertFail ==
          <<Ev.k \notin DOMAIN ref, "C02.UpdateOfKnownServerSucceeds">>,
          <<NotMutated(Ev.members), "C02.PoolNotMutated">>,
          <<MembersOK(Ev.members, ref), "C02.RefusedAddLeavesPoolUnchanged">> >>)
-  /\ UNCHANGED <<scn, subject, pool, idx, cw, ref, picks, cnt, drift>> /\ nev' = nev + 1
+  /\ UNCHANGED <<scn, subject, pool, idx, cw, ref, picks, cnt, drift>> /\ nev' = nev + 1 /\ rfz' = TRUE
 
 Remove ==
   /\ IsEvent("Remove")
@@ -110,6 +112,7 @@ Remove ==
   /\ LET i == FindKey(pool, Ev.k) IN
      IF i = 0 THEN UNCHANGED <<pool, idx, cw>>
      ELSE pool' = RemoveAt(pool, i) /\ idx' = -1 /\ cw' = 0
+  /\ rfz' = (Ev.k \notin DOMAIN ref /\ Ev.err)
   /\ UNCHANGED <<scn, subject, drift>> /\ nev' = nev + 1
 
 (* contract evaluation of one rotation selection of key k (C01 + C02) *)
@@ -135,22 +138,29 @@ ImplPick ==   \* the model's own prediction
   IF Len(pool) > 0 /\ MaxWeight(pool) = 0 THEN [err |-> "allzero", idx |-> idx, cw |-> cw]
   ELSE PickResult(pool, idx, cw, FALSE)
 
+ImplMismatch(obsOk, k) ==
+  LET r == ImplPick IN
+  subject = "rr" /\ ( (r.err = "ok") # obsOk \/ (r.err = "ok" /\ obsOk /\ pool[r.idx + 1].k # k) )
+
+(* a refused administration call (unknown server removed, invalid option, refused add) "changes nothing": the rotation *)
+(* goes on exactly where it was - decided by the rr.go model, which leaves its iterator untouched on those paths        *)
+RefusedClause(obsOk, k) == << <<~(rfz /\ ImplMismatch(obsOk, k)), "C02.RefusedCallChangesNothing">> >>
+
 ImplStep(obsOk, k) ==
   LET r == ImplPick IN
   /\ idx' = r.idx /\ cw' = r.cw
-  /\ drift' = IF subject = "rr" /\
-                 ( (r.err = "ok") # obsOk \/ (r.err = "ok" /\ obsOk /\ pool[r.idx + 1].k # k) )
+  /\ drift' = IF ImplMismatch(obsOk, k)
               THEN Report(drift, scn, l, "rr.nextServer") ELSE drift
 
 Pick ==
   /\ IsEvent("Pick")
   /\ IF Ev.err = "ok"
-       THEN /\ bad' = ReportAll(bad, scn, l, SelChecks(Ev.k))
+       THEN /\ bad' = ReportAll(bad, scn, l, SelChecks(Ev.k) \o RefusedClause(TRUE, Ev.k))
             /\ SelUpdate(Ev.k)
-       ELSE /\ bad' = ReportAll(bad, scn, l, << <<~RefServable(ref), "C02.ServableNeverRefused">> >>)
+       ELSE /\ bad' = ReportAll(bad, scn, l, << <<~RefServable(ref), "C02.ServableNeverRefused">> >> \o RefusedClause(FALSE, ""))
             /\ UNCHANGED <<picks, cnt>>
   /\ ImplStep(Ev.err = "ok", Ev.k)
-  /\ UNCHANGED <<scn, subject, pool, ref>> /\ nev' = nev + 1
+  /\ UNCHANGED <<scn, subject, pool, ref, rfz>> /\ nev' = nev + 1
 
 (* a request through ServeHTTP.  ck = key named by a valid affinity cookie ("" if none) *)
 Serve ==
@@ -167,7 +177,7 @@ Serve ==
                           <<NotMutated(Ev.members), "C02.PoolNotMutated">>,
                           <<MembersOK(Ev.members, ref), "C02.HandlerCannotAlterPool">> >>)
                    /\ UNCHANGED <<picks, cnt, idx, cw, drift>>
-              ELSE /\ bad' = ReportAll(bad, scn, l, SelChecks(Ev.k) \o <<
+              ELSE /\ bad' = ReportAll(bad, scn, l, SelChecks(Ev.k) \o RefusedClause(TRUE, Ev.k) \o <<
                           <<~must, "C11.StuckToCookieServer">>,
                           <<(Ev.sticky # "" /\ ~free) => Ev.setcookie, "C11.FreshCookieIssued">>,
                           <<Ev.status = Ev.hstatus, "C20.StatusRelayed">>,
@@ -182,7 +192,7 @@ Serve ==
                    <<MembersOK(Ev.members, ref), "C02.HandlerCannotAlterPool">> >>)
             /\ UNCHANGED <<picks, cnt>>
             /\ IF stuck THEN UNCHANGED <<idx, cw, drift>> ELSE ImplStep(FALSE, "")
-  /\ UNCHANGED <<scn, subject, pool, ref>> /\ nev' = nev + 1
+  /\ UNCHANGED <<scn, subject, pool, ref, rfz>> /\ nev' = nev + 1
 
 (* ---- events of the concurrent drivers: taken from the hooks inside the balancer's mutex ---- *)
 CUpsert ==        \* rr.upsert hook: server k now has weight w
@@ -193,7 +203,7 @@ CUpsert ==        \* rr.upsert hook: server k now has weight w
   /\ pool' = (IF FindKey(pool, Ev.k) # 0 THEN [pool EXCEPT ![FindKey(pool, Ev.k)].w = Ev.w]
               ELSE Append(pool, [k |-> Ev.k, v |-> Ev.v, w |-> Ev.w]))
   /\ idx' = -1 /\ cw' = 0
-  /\ UNCHANGED <<scn, subject, bad, drift>> /\ nev' = nev + 1
+  /\ UNCHANGED <<scn, subject, bad, drift, rfz>> /\ nev' = nev + 1
 
 CRemove ==        \* rr.remove hook
   /\ IsEvent("CRemove")
@@ -203,19 +213,19 @@ CRemove ==        \* rr.remove hook
   /\ LET i == FindKey(pool, Ev.k) IN
      IF i = 0 THEN UNCHANGED <<pool, idx, cw>>
      ELSE pool' = RemoveAt(pool, i) /\ idx' = -1 /\ cw' = 0
-  /\ UNCHANGED <<scn, subject, bad, drift>> /\ nev' = nev + 1
+  /\ UNCHANGED <<scn, subject, bad, drift, rfz>> /\ nev' = nev + 1
 
 Members ==        \* inspection at quiescence
   /\ IsEvent("Members")
   /\ bad' = ReportAll(bad, scn, l, <<
          <<NotMutated(Ev.members), "C02.PoolNotMutated">>,
          <<MembersOK(Ev.members, ref), "C02.MembersMatchAdminCalls">> >>)
-  /\ UNCHANGED <<scn, subject, pool, idx, cw, ref, picks, cnt, drift>> /\ nev' = nev + 1
+  /\ UNCHANGED <<scn, subject, pool, idx, cw, ref, picks, cnt, drift, rfz>> /\ nev' = nev + 1
 
 End ==
   /\ IsEvent("End")
   /\ JsonSerialize("result.json", [bad |-> bad, drift |-> drift, events |-> nev, lines |-> l])
-  /\ UNCHANGED <<scn, subject, pool, idx, cw, ref, picks, cnt, bad, drift, nev>>
+  /\ UNCHANGED <<scn, subject, pool, idx, cw, ref, picks, cnt, bad, drift, nev, rfz>>
 
 Next == Reset \/ Upsert \/ UpsertFail \/ UpsertBad \/ Remove \/ Pick \/ Serve \/ CUpsert \/ CRemove \/ Members \/ End
 Spec == Init /\ [][Next]_vars
